@@ -193,7 +193,9 @@ fn c02_q_context_read_selects_arm_layout() {
             _ => assert!(false),
         }
     }
-    assert!(MinidumpContext::read(&buf[..367], e, &si, None).is_err());
+    let short = MinidumpContext::read(&buf[..367], e, &si, None);
+    assert!(short.is_err());
+    std::mem::forget(short);
     std::mem::forget(r);
     std::mem::forget(si);
 }
